@@ -183,12 +183,9 @@ Proof.
       * inversion Hr; subst. split; [|split; auto]. 2:{ eapply hle_trans; eauto. }
         eapply goodB_weaken; [|apply seg_done; exact Handled]. lia.
   - (* World *)
-    destruct op as [|s].
-    + destruct (w_in w) as [|ln rs] eqn:Win.
-      * destruct (IH _ _ _ _ _ _ _ _ Hr Hinv) as (G & L & I); split; [|split; auto].
-        eapply goodB_cont; [intros; cbn [frame_step Fr fr_comp]; rewrite Win; reflexivity|auto|exact G].
-      * destruct (IH _ _ _ _ _ _ _ _ Hr Hinv) as (G & L & I); split; [|split; auto].
-        eapply goodB_cont; [intros; cbn [frame_step Fr fr_comp]; rewrite Win; reflexivity|auto|exact G].
+    destruct (wstep w op) as [w2 [rv|re]] eqn:Ws.
     + destruct (IH _ _ _ _ _ _ _ _ Hr Hinv) as (G & L & I); split; [|split; auto].
-      eapply goodB_cont; [intros; reflexivity|auto|exact G].
+      eapply goodB_cont; [intros; cbn [frame_step Fr fr_comp]; rewrite Ws; reflexivity|auto|exact G].
+    + inversion Hr; subst. split; [|split; auto using hle_refl].
+      eapply goodB_cont; [intros; cbn [frame_step Fr fr_comp]; rewrite Ws; reflexivity|auto|apply (goodB_refl ip h' w' (inr re))].
 Qed.
